@@ -113,8 +113,8 @@ Definition sr_classify (ws : bool) (depth : N) (t : token) : sr_out * N :=
 (* stream.Error.UnmarshalXML through Decoder.DecodeElement, on the tokens that
    follow <stream:error>: the condition is the local name of the last child in
    the stream-error name space other than <text/>; a child in another name
-   space makes UnmarshalXML return early and DecodeElement fail. [d] is the
-   depth inside a child being skipped. *)
+   space (an application-specific condition) is skipped whole (fix ac97115 of
+   stream/error.go). [d] is the depth inside a child being skipped. *)
 Fixpoint se_scan (d : nat) (cond : bytes) (l : list token) : err :=
   match l with
   | [] => EDecode
@@ -126,7 +126,7 @@ Fixpoint se_scan (d : nat) (cond : bytes) (l : list token) : err :=
           | TStart n _ =>
               if bytes_eqb (nspace n) sv_ns_stream_error
               then se_scan 1 (if bytes_eqb (nlocal n) s_text then cond else nlocal n) r
-              else EDecode
+              else se_scan 1 cond r
           | _ => se_scan O cond r
           end
       | S d' =>
